@@ -704,13 +704,41 @@ class SymArray:
 
     def __getitem__(self, i):
         if isinstance(i, slice):
-            start, stop, step = i.indices(self.length) if not any(is_sym(x) for x in (i.start, i.stop, i.step)) else (None, None, None)
-            if start is None:
-                raise HarnessError('symbolic slice bounds')
+            if any(is_sym(x) for x in (i.start, i.stop, i.step)):
+                return self._sym_slice(i)
+            start, stop, step = i.indices(self.length)
             return [self[k] for k in range(start, stop, step)]
         ie = self._idx(i, 'read')
         v = z3.simplify(z3.Select(self.arr, ie))
         return SymInt(z3.ZeroExt(W - 8, v), 0, 255)
+
+    def _sym_slice(self, sl):
+        """slice with symbolic bounds: the length is realised (forking over its few values); Python's clamping
+        of out-of-range bounds is reproduced"""
+        if sl.step not in (None, 1):
+            raise HarnessError('symbolic slice with a step')
+        p = Path.cur
+        n = self.length
+
+        def clamp(x, default):
+            if x is None:
+                return default
+            if isinstance(x, int):
+                if x < 0:
+                    x += n
+                return min(max(x, 0), n)
+            if x.lo < 0 and p.branch(x.e < 0):
+                x = x + n
+                if x.lo < 0 and p.branch(x.e < 0):
+                    return 0
+            if x.hi > n and p.branch(x.e > n):
+                return n
+            return x
+        start, stop = clamp(sl.start, 0), clamp(sl.stop, n)
+        ln = stop - start
+        if not isinstance(ln, int):
+            ln = p.realise(ln.e, 'slice-length', limit=4096)
+        return [self[start + k] for k in range(max(0, ln))]
 
     def __setitem__(self, i, v):
         if isinstance(i, slice):
